@@ -2,7 +2,7 @@
 # Real code executed symbolically: TlvModel.encode / encoded_length / parse, TlvModelMeta (field collection,
 # IncludeBase), UintField, BoolField, BytesField, NameField, ModelField, RepeatedField, MapField codecs,
 # write_tl_num / parse_tl_num / get_tl_num_size, Name.encode / decode.
-from symex.api import And, Or, Not, blist, bwrap, beq, exc_sig
+from symex.api import And, Or, Not, blist, bwrap, beq, exc_sig, as_int, mkbuf
 from . import ref, env, modelgen as mg
 
 PROPERTY = 'C08'
@@ -49,6 +49,24 @@ def h_enc(eng, case):
     expected = mg.w_model(schema, vals)
     eng.check(beq(wire, expected), 'exact-minimal-encoding')
     eng.check(len(wire) == n, 'announced-size')
+    # the same model written into a caller-supplied buffer that is not zero-filled, at an offset
+    try:
+        nn = as_int(n)
+        buf = mkbuf(nn + 5, 0xA5)
+        m.encode(buf, 3)
+        eng.check(beq(blist(buf)[3:3 + nn], expected), 'exact-minimal-encoding', sig='into-supplied-buffer')
+        eng.check(beq(blist(buf)[:3] + blist(buf)[3 + nn:], [0xA5] * 5), 'exact-minimal-encoding',
+                  sig='writes-outside-its-range')
+    except Exception as e:
+        eng.fail('encode-raises', 'supplied-buffer:' + exc_sig(e), repr(e)[:200])
+        return
+    # decode history: the parent classes of the model have decoded something before (class-level state must not leak)
+    for b in cls.__mro__[1:]:
+        if getattr(b, '_encoded_fields', None) and b.__name__ != 'TlvModel':
+            try:
+                b.parse(b'')
+            except Exception:
+                pass
     try:
         back = cls.parse(wire)
     except Exception as e:
